@@ -9,6 +9,8 @@ CONSTANTS
   X100Skip = {65536}
   X100MaxN = 4096
   StreamLimits = {4096, 65536}
+  IndexLimits = {1000, 100000}
+  IndexParts = {2, 200}
   CountLimits = {50, 1000}
   Containers = {"content", "objstm", "xref", "image"}
   Emit = TRUE
